@@ -23,7 +23,8 @@ run_one() {
   rm -rf "$T" "$V"
 }
 export -f run_one
-ls selftest/benign | grep -E '^C[0-9]+-[A-Z]$' | xargs -P 14 -I{} bash -c "run_one {} $OUT $IDS"
+# BENFILTER=<regex>: only the refactorings whose id matches (partial run; RESULTS.md is then left alone)
+ls selftest/benign | grep -E '^C[0-9]+-[A-Z]$' | grep -E -e "${BENFILTER:-.}" | xargs -P 14 -I{} bash -c "run_one {} $OUT $IDS"
 cat "$OUT"/* ; n=$(ls "$OUT" | wc -l); bad=$(grep -l 'rc=' "$OUT"/* | wc -l); echo "== $n refactorings, $bad with at least one non-zero check"
 {
   echo "# Every claimed check on every behaviour-preserving refactoring"
@@ -38,5 +39,5 @@ cat "$OUT"/* ; n=$(ls "$OUT" | wc -l); bad=$(grep -l 'rc=' "$OUT"/* | wc -l); ec
   grep -h -A3 'rc=' "$OUT"/* | cut -c1-400
   for f in "$OUT"/*; do grep -q 'rc=' "$f" && head -1 "$f"; done
   echo '```'
-} > /verif/selftest/benign/RESULTS.md
+} > "$( [ -n "${BENFILTER:-}" ] && echo /dev/null || echo /verif/selftest/benign/RESULTS.md )"
 rm -rf "$OUT"
